@@ -47,6 +47,10 @@ class E5(Event):
     pass
 
 
+class E0Sub(E0):
+    """Subclass of a consumed type: must NOT be routed to steps accepting E0 (exact-type routing)."""
+
+
 class Ask(InputRequiredEvent):
     pass
 
@@ -57,6 +61,10 @@ class Reply(HumanResponseEvent):
 
 class Reply2(HumanResponseEvent):
     pass
+
+
+class ReplySub(Reply):
+    """Subclass of a waited-for type: must not resolve a wait for Reply."""
 
 
 class Fin(HumanResponseEvent):
@@ -77,7 +85,7 @@ class GenErrorB(Exception):
 
 POOL = {
     c.__name__: c
-    for c in [GStart, GStop, E0, E1, E2, E3, E4, E5, Ask, Reply, Reply2, Fin, Note]
+    for c in [GStart, GStop, E0, E1, E2, E3, E4, E5, E0Sub, Ask, Reply, Reply2, ReplySub, Fin, Note]
 }
 ETYPES = ["E0", "E1", "E2", "E3", "E4", "E5"]
 EXC = {
